@@ -71,6 +71,7 @@ def model_check(ctx, tol):
     if 'C11b' in tol and t == 'thorough':
         jobs.append(('pass', 'as written, peer may answer before the write returns (F4 and C11b tolerated by shape)', 'MC_RpcOoo_early_thorough.cfg', 4))
         jobs.append(('finding', ('C11b', {'notinmap_claimed', 'timeout_claimed'}), 'MC_RpcOoo_earlyw.cfg', 3))
+        jobs.append(('pass', 'repair of F4 + sketch of a repair of C11b, peer may answer before the write returns', 'MC_RpcOoo_patched2_early_thorough.cfg', 4))
     EXPECT = {'nonotify': {'LeaderHandover'}, 'collectself': {'OwnResponse', 'FailureIsolated'}}
     for br in EXPECT:
         jobs.append(('broken', br, f'MC_RpcOoo_{br}.cfg', 2))
@@ -210,7 +211,7 @@ def run(ctx):
     t = ctx.tier
     ctx.samples.append({'constants': open(f'{vtlib.SPEC}/MC_RpcOoo_asis_{"quick" if t == "quick" else "thorough"}.cfg').read()})
     modes = [('enum', 200), ('rand', 200), ('f4', 6)] if t == 'quick' else [('enum', 1080), ('rand', 6000), ('f4', 40)]
-    if 'C11b' in tol:
+    if 'C11b' in tol or os.environ.get('VERIF_C11_EARLY'):      # (the environment variable: self-test of a repair of C11b on a scratch tree)
         modes.append(('early', 4 if t == 'quick' else 32))
     # The trace specification runs with the switches of the tolerated findings on: it then accepts an access after return ONLY
     # with the finding's signature; everything else is still rejected.  The signature is counted independently on the recorded
@@ -248,7 +249,7 @@ def run(ctx):
         if len(ctx.samples) < 10:
             ctx.samples.append({'finding': fid, 'mode': prim, 'recorded_execution': ex[:40]})
     ek = ctx.extra.get('event_kinds', {})
-    if not ek.get('StreamRead') or not ek.get('StreamFault') or not ek.get('CallResp'):
+    if not ctx.violations and (not ek.get('StreamRead') or not ek.get('StreamFault') or not ek.get('CallResp')):
         raise vtlib.InfraError('h_rpc recorded no stream activity')
     for fid in sorted(tol):
         if not hits.get(fid):
